@@ -343,7 +343,8 @@ def c07(ctx):
     for m in cfgev["E"]:
         for rep in range(1 if quick else 3):
             s = cheap_setting(m, rng)
-            for ph in (gen.rand_phrase(rng, rng.choice((1, 7))), gen.rand_phrase(rng, rng.choice((9, 20, 80)))):
+            for ph in (gen.rand_phrase(rng, rng.choice((1, 7))), gen.rand_phrase(rng, rng.choice((9, 20, 80))),
+                       gen.rand_phrase(rng, rng.choice((129, 200, 256, 257, 300, 400, 511)))):
                 nreq += 1
                 aligns = list(range(16))
                 rng.shuffle(aligns)
@@ -506,9 +507,11 @@ def c15(ctx):
                 s = s.replace("j65", "j95")          # N=2^12 r=8: 4 MiB
             for fn in ("crypt_rn 0 %s %s 32768", "crypt_r 0 %s %s", "crypt - %s %s", "crypt_ra 0 %s %s", "crypt_ra 1 %s %s"):
                 corpus.append((fn, ph, s))
+    # a region above the huge-page threshold (32 MiB, not a multiple of 2 MiB): MAP_HUGETLB attempt, then the plain retry
+    corpus.append(("crypt_rn 0 %s %s 32768", b"hugepages", "$y$jC5$abcd"))
     if not quick:
-        # a region above the huge-page threshold (32 MiB): MAP_HUGETLB attempt, then the plain retry
-        corpus.append(("crypt_rn 0 %s %s 32768", b"hugepages", "$y$jA5$abcd"))
+        corpus.append(("crypt_ra 0 %s %s", b"hugepages", "$gy$jC5$abcd"))
+        corpus.append(("crypt_r 0 %s %s", b"hugepages", "$7$C6..../....abcd"))
     for m in cfgev["E"]:
         corpus.append(("gensalt_ra %s 0 - 0", None, gen.PREFIX[m]))
     # pass 1: fault-free, count the requests each call makes
@@ -622,11 +625,21 @@ def c04(ctx):
     ctx.build("asan")
     ev2 = ctx.run_xcv(script[: (1500 if quick else 20000)], flavour="asan", env={"XCV_NO_RLIMIT": "1"}, timeout=1500)
     v2 = judge(ctx, ev2, "asan", config_event(ctx, "asan"))
+    # the result never depends on what the object held before: zero-filled first, then junk fills
+    un = []
+    for m in cfgev["E"]:
+        for n in ((0, 1, 8, 9, 64, 129, 257, 511) if quick else (0, 1, 7, 8, 9, 16, 17, 63, 64, 65, 72, 73, 128, 129, 255, 256, 257, 400, 511)):
+            ph, s = gen.rand_phrase(rng, n), cheap_setting(m, rng)
+            for fill in (0, 1, 2, 3):
+                un.append("obj 0 %d %d" % (rng.randrange(16), fill))
+                un.append("%s 0 %s %s" % (rng.choice(("crypt_r", "crypt_rn")), hx(ph), hx(s)))
+    ev4 = ctx.run_xcv(un)
+    v4 = judge(ctx, ev4, "uninit", cfgev)
     behs = behaviours(ctx, 30 if quick else 200)
     ev3 = ctx.run_xcv(concretize(ctx, behs, cfgev["E"]), flavour="asan", env={"XCV_NO_RLIMIT": "1"}, timeout=1500)
     v3 = judge(ctx, ev3, "asanwalk", config_event(ctx, "asan"))
     attribute(ctx)
-    cov = mc_coverage(ctx, st, tr, [v1, v2, v3], ev1 + ev2 + ev3,
+    cov = mc_coverage(ctx, st, tr, [v1, v2, v3, v4], ev1 + ev2 + ev3 + ev4,
                       {"explanation": "write confinement, bounds and crash-freedom are decided by the specification's footprints "
                                       "(TraceXCrypt C_Confined: application fields and red zones intact, result inside the output "
                                       "field and NUL-terminated, no static written by re-entrant calls) on every replayed call; "
